@@ -29,7 +29,7 @@ OBLS += [
         defines=['STR_CAP=16'], globals=[('ipv4_fast_fail', U64)], solver='kissat', timeout=900,
         note='all 2^32 addresses: serializer == Standard\'s dotted decimal, and the real parser inverts it'),
     Obl('C10.serializers.ipv6.exact', ['C10', 'C05', 'C02'], 'P#', 'c10/ser_ipv6.c', roots=['serializers_ipv6'], includes=INC, unwind=10, unwindset=['str_ctor__z_c.0:43', 'str_resize__z_c.0:43'],
-        defines=['STR_CAP=42'], solver='kissat', timeout=3000, tier='thorough',
+        defines=['STR_CAP=42'], solver='kissat', timeout=3000,
         note='all 2^128 addresses: real serializer == the Standard\'s IPv6 serializer (first longest zero run compressed, lower-case hex, no leading zeros)'),
 ]
 OBLS.append(Obl('C10.parse_host.host_type_truthful', ['C10', 'C04', 'C19', 'C02'], 'B(8)', 'auto', roots=['agg_parse_host'], enforce='agg_parse_host',
